@@ -109,6 +109,10 @@ long profile_get_integer(profile_t p, const char *a, const char *b, const char *
 { (void) p; (void) a; (void) b; (void) c; (void) def; *ret = vf_max; return 0; }
 long profile_get_string(profile_t p, const char *a, const char *b, const char *c, const char *def, char **ret)
 { (void) p; (void) a; (void) b; (void) c; (void) def; *ret = 0; return 0; }
+#ifndef VF_REPLAY
+/* STUB: sprintf() (builds the profile key, which the profile stubs ignore) writes an empty string */
+int sprintf(char *str, const char *fmt, ...) { (void) fmt; str[0] = 0; return 0; }
+#endif
 /* STUB: print_e2fsck_message() only prints */
 void print_e2fsck_message(FILE *f, e2fsck_t ctx, const char *msg, struct problem_context *pctx, int first, int recurse)
 { (void) f; (void) ctx; (void) msg; (void) pctx; (void) first; (void) recurse; }
@@ -206,12 +210,15 @@ static void vf_check(problem_t code, int f, int p)	/* code, flags, prompt of the
 	if (p != PROMPT_NONE && !(f & (PR_FORCE_NO | PR_AFTER_CODE)))
 		PROP(a.ret == 1, "-y: every prompted problem not PR_FORCE_NO is answered yes");
 	PROP(a.nask == 0, "-y: the user is never consulted");
+	for (i = 0; i < VF_NLATCH; i++)
+		PROP(!(a.latch[i] & PRL_NO), "-y: no latch turns to NO");
 #endif
 #if MODE == 3
 	PROP(a.nask == 0, "-p: the user is never consulted");
 	PROP((f & PR_PREEN_OK) || p == PROMPT_NONE, "-p: a prompted problem without PR_PREEN_OK ends the run");
 #endif
 
+#ifdef NONINTERF
 	/* run B: same state, same replies; display-only attributes changed */
 	e = &vf_slot[0];	/* the slot of the raised problem */
 	PROP(e->e2p_code == code, "harness: slot 0 holds the raised problem");
@@ -224,6 +231,7 @@ static void vf_check(problem_t code, int f, int p)	/* code, flags, prompt of the
 	PROP(a.nask == b.nask, "display flags / counters do not change how often the user is asked");
 	for (i = 0; i < VF_NLATCH; i++)
 		PROP(a.latch[i] == b.latch[i], "display flags / counters do not change the latch register");
+#endif
 }
 
 int main(void)
@@ -247,6 +255,11 @@ int main(void)
 #endif
 	PROP(VF_NTAB <= VF_NTAB_MAX, "harness: table fits");
 	vf_load_table();
+#if MODE == 2
+	/* ASSUME: (inductive) under -y no latch is in state PRL_NO; re-established by the PROP "-y: no latch turns to NO" */
+	for (i = 0; i < VF_NLATCH; i++)
+		ASSUME(!(IN.latch[i] & PRL_NO));
+#endif
 	for (i = 0; i < VF_NTAB; i++)
 		if ((unsigned) i == IN.idx) {
 			code = vf_tcode[i];
